@@ -423,12 +423,13 @@ pub fn build_world() -> World51 {
     let groups = vec![
         ("metadata+owner(C1)".to_string(), vec![i_md[0], i_md[1], i_owner1], g1),
         ("royalty(C1)".to_string(), vec![i_roy[0], i_roy[1], i_roy_pre], g_roy),
-        ("field+kv-collection(C1)".to_string(), vec![i_field[0], i_field[1], i_kv[0], i_kv[1]], g_state),
         ("kv-store(C4)".to_string(), vec![i_store[0], i_store[1]], g_store),
         ("self-managed(C2)".to_string(), vec![i_md2, i_owner2, i_roy2], g_self),
         ("created-locked(C3)".to_string(), vec![i_owner3, i_f3[0], i_f3[1]], g_pre),
         ("resource-roles(R)".to_string(), vec![i_minter, i_minter_upd, i_burner, i_burner_upd], g_res),
         ("mixed(C1)".to_string(), mixed_items, g_mixed),
+        // the largest state space last (if the shared wall budget runs out, every kind has been explored before)
+        ("field+kv-collection(C1)".to_string(), vec![i_field[0], i_field[1], i_kv[0], i_kv[1]], g_state),
     ];
     World51 { snap: sim.create_snapshot(), a, b, items, groups }
 }
@@ -577,13 +578,13 @@ pub fn run(ctx: Ctx) -> ! {
     }
     // (depth of the per-kind groups, depth of the mixed group, wall cap per group)
     // total wall budget shared by the groups (a group that runs out of budget reports its deepest completed layer)
-    let (d_kind, d_mixed, budget) = ctx.pick((4usize, 3usize, 50.0), (12, 12, 1100.0));
+    let (d_kind, d_mixed, budget) = ctx.pick((4usize, 3usize, 55.0), (12, 12, 1100.0));
     let mut total = BfsStats::default();
     let mut per_group = vec![];
     for gi in 0..w.groups.len() {
         let m = M51 { w: &w, group: gi };
         let depth = if w.groups[gi].0.starts_with("mixed") { d_mixed } else { d_kind };
-        let cap = (budget - ctx.elapsed_s()).max(5.0);
+        let cap = (budget - ctx.elapsed_s()).max(1.0);
         let s = bfs(&ctx, &m, &w.groups[gi].0, depth, 2_000_000, cap);
         per_group.push(json!({"group": w.groups[gi].0, "items": w.groups[gi].1.iter().map(|i| w.items[*i].name.clone()).collect::<Vec<_>>(), "actions": w.groups[gi].2.len(), "depth": depth, "depth_completed": s.depth_completed, "states": s.states, "transitions": s.transitions, "fixpoint": s.depth_completed == depth && s.per_depth_states.last() == Some(&0), "capped": s.capped}));
         total.add(&s);
